@@ -376,6 +376,9 @@ class Interp:
                         return FuncV(cv.info, obj)
                     return cv
                 return Undef(name)
+            flds = getattr(o, "fields", None)
+            if flds and name in flds and isinstance(o, ListObj):
+                return o.items[flds.index(name)][1]
             return Op("bound", obj, Const(name))
         if isinstance(obj, ModuleV):
             ns = self.module_ns(obj.name) if obj.name in self.prog.modules else None
@@ -1045,6 +1048,23 @@ class _CallMixin:
             return self.instantiate(f.info, args, kwargs, node)
         if isinstance(f, Ext):
             return self.call_ext(f.name, args, kwargs, node)
+        if isinstance(f, Op) and f.op == "namedtuple":
+            flds = f.args[1]
+            names = None
+            if isinstance(flds, Const) and isinstance(flds.v, tuple):
+                names = list(flds.v)
+            elif isinstance(flds, Const) and isinstance(flds.v, str):
+                names = flds.v.replace(",", " ").split()
+            else:
+                lo = self.as_list(flds)
+                if lo is not None and lo.concrete() and all(is_const(i[1], str) for i in lo.items):
+                    names = [i[1].v for i in lo.items]
+            if names is not None:
+                vals = list(args) + [kwargs[n] for n in names[len(args):] if n in kwargs]
+                if len(vals) == len(names):
+                    ref = self.alloc(ListObj(self.born_now(), [("v", v, TRUE) for v in vals], "tuple"))
+                    self.heap[ref.oid].fields = names
+                    return ref
         if isinstance(f, Op) and f.op == "dictget":
             # function table dispatch:  parsers.get(key, default)(...)
             tbl = self.heap.get(f.args[0].oid) if isinstance(f.args[0], Ref) else None
